@@ -137,13 +137,14 @@ class CollectFootnotes(Transform):
             transition.source = self.document.source
             self.document += transition
 
-        def _sort_key(footnote: tuple[str, nodes.footnote]) -> int | str:
+        def _sort_key(footnote: tuple[str, nodes.footnote]) -> tuple[int, int, str]:
             label, _ = footnote
             try:
                 # ensure e.g 10 comes after 2
-                return int(label)
+                return (0, int(label), "")
             except ValueError:
-                return label
+                # (numbers before other labels: the two kinds are never compared with each other)
+                return (1, 0, label)
 
         for _, footnote in sorted(footnotes, key=_sort_key):
             footnote.parent.remove(footnote)
